@@ -992,6 +992,10 @@ func (fc *FnCtx) copyElems(et types.Type, dst, src Val, n string) {
 		fc.cur = fc.cur.havocked(ns)
 		return
 	}
+	precise := fc.eng.contentMode || typeKey(et) != "uint8"
+	if isStringType(src.T) {
+		precise = false
+	}
 	for k, lf := range layout(et) {
 		name := fmt.Sprintf("E|%s|%d", typeKey(et), k)
 		inner := arraySort(bvSort(64), lf.Sort)
@@ -999,6 +1003,19 @@ func (fc *FnCtx) copyElems(et types.Type, dst, src Val, n string) {
 		old := fc.cur.get(name, srt)
 		fr := fc.declareFresh("copyelems", inner)
 		fc.cur.set(name, srt, app("store", old, dst.L[0], fr))
+		if !precise {
+			continue
+		}
+		// memmove semantics: the n copied cells take the OLD source values, every other cell of dst's array is unchanged
+		fc.hasQuant = true
+		i := qsym(fc.fresh("qc"))
+		oldDst := app("select", old, dst.L[0])
+		oldSrc := app("select", old, src.L[0])
+		rel := app("bvsub", i, dst.L[1]) // index relative to dst's start
+		inRange := and(app("bvuge", i, dst.L[1]), app("bvult", rel, n))
+		body := ite(inRange, app("select", oldSrc, app("bvadd", src.L[1], rel)), app("select", oldDst, i))
+		ax := fmt.Sprintf("(forall ((%s (_ BitVec 64))) (! (= (select %s %s) %s) :pattern ((select %s %s))))", i, fr, i, body, fr, i)
+		fc.cur.assume(ax)
 	}
 }
 
